@@ -22,6 +22,9 @@ func GenSeq(t *rapid.T) *SeqCase {
 	c := &SeqCase{SharedOpts: rapid.IntRange(0, 3).Draw(t, "sharedOpts") == 0}
 	if rapid.Bool().Draw(t, "hasAmbient") {
 		c.Ambient = rapid.IntRange(0, busmodel.AmbAll).Draw(t, "ambient")
+		if rapid.IntRange(0, 3).Draw(t, "nilOpts") == 0 {
+			c.Ambient |= busmodel.AmbNils
+		}
 	}
 	nh := rapid.IntRange(1, 6).Draw(t, "nh")
 	if rapid.IntRange(0, 5).Draw(t, "crowd") == 0 {
@@ -87,6 +90,9 @@ func GenConc(t *rapid.T) *ConcCase {
 	c := &ConcCase{Rounds: 20, SharedOpts: rapid.IntRange(0, 3).Draw(t, "sharedOpts") == 0}
 	if rapid.Bool().Draw(t, "hasAmbient") {
 		c.Ambient = rapid.IntRange(0, busmodel.AmbAll).Draw(t, "ambient")
+		if rapid.IntRange(0, 3).Draw(t, "nilOpts") == 0 {
+			c.Ambient |= busmodel.AmbNils
+		}
 	}
 	nh := rapid.IntRange(1, 4).Draw(t, "nh")
 	for i := 0; i < nh; i++ {
